@@ -301,6 +301,10 @@ func (g *G) atom(ctx ECtx, depth int) influxql.Expr {
 		return g.Call(ctx, depth)
 	case k < 17 && depth > 0:
 		g.feat("paren.atom")
+		if !g.Opt.Simple && g.Rg.P(0.12) {
+			g.feat("paren.doubled")
+			return &influxql.ParenExpr{Expr: &influxql.ParenExpr{Expr: g.Tree(ctx, depth-1)}}
+		}
 		return &influxql.ParenExpr{Expr: g.Tree(ctx, depth-1)}
 	case k < 19 && !g.Opt.NoNeg:
 		var inner influxql.Expr
@@ -517,12 +521,19 @@ func (g *G) Emit(e influxql.Expr) {
 		}
 		b.Raw(s, CNum, "integer")
 	case *influxql.UnsignedLiteral:
+		if !b.Plain && g.Rg.P(0.15) {
+			b.Raw("+", COp, "unary+")
+			g.feat("spell.plus-unsigned")
+		}
 		b.Raw(strconv.FormatUint(e.Val, 10), CNum, "integer")
 	case *influxql.NumberLiteral:
 		v := e.Val
 		if v < 0 || (v == 0 && math.Signbit(v)) {
 			b.Raw("-", COp, "unary-")
 			v = -v
+		} else if !b.Plain && g.Rg.P(0.08) {
+			b.Raw("+", COp, "unary+")
+			g.feat("spell.plus-number")
 		}
 		b.Raw(g.FloatSpell(v), CNum, "number")
 	case *influxql.StringLiteral:
@@ -538,6 +549,9 @@ func (g *G) Emit(e influxql.Expr) {
 		if d < 0 {
 			b.Raw("-", COp, "unary-")
 			d = -d
+		} else if !b.Plain && g.Rg.P(0.1) {
+			b.Raw("+", COp, "unary+")
+			g.feat("spell.plus-duration")
 		}
 		b.Raw(g.DurSpell(d), CDur, "duration")
 	case *influxql.RegexLiteral:
